@@ -46,9 +46,14 @@ type Case struct {
 	Start  int    `json:"start"`  // half intervals before the cut
 	Len    int    `json:"len"`    // half intervals cut off (0 = never)
 	After  int    `json:"after"`  // half intervals after the cut ends
+	// Kind "lease-boundary": node 2 asks when node 1's lease has this long left (negative: after expiry)
+	RemainingNs int64 `json:"remaining_ns,omitempty"`
 }
 
 func (c Case) String() string {
+	if c.Kind == "lease-boundary" {
+		return fmt.Sprintf("node 2 asks for the table with %v of node 1's lease remaining", time.Duration(c.RemainingNs))
+	}
 	if c.Len == 0 {
 		return fmt.Sprintf("seed %d, no cut, %d half-intervals", c.Seed, c.Start+c.After)
 	}
@@ -69,6 +74,7 @@ type Result struct {
 	Events       int64       `json:"events"`
 	HolderPolls  int64       `json:"observations_with_lease_flag_set"`
 	Takeovers    int64       `json:"paths_with_a_takeover"`
+	Boundary     int64       `json:"lease_boundary_cases"`
 	Violations   []Violation `json:"violations"`
 	Rule         string      `json:"rule"`
 	DistinctOutc int         `json:"distinct_outcomes"`
@@ -80,6 +86,8 @@ type partStore struct {
 	ns     *metastore.NodeStore
 	cut    *bool
 	onRead func(key string)
+	// beforeSet runs before a write that reaches the store; what it returns runs after the write succeeded
+	beforeSet func(key string) func()
 }
 
 func (p *partStore) Exists(key string) (bool, error) {
@@ -121,7 +129,15 @@ func (p *partStore) Set(key, value string, ver uint64) (kv.Pair, error) {
 	if *p.cut {
 		return kv.Pair{}, dragonboat.ErrTimeout // the proposal never reaches a quorum
 	}
-	return p.ns.Set(key, value, ver)
+	var after func()
+	if p.beforeSet != nil {
+		after = p.beforeSet(key)
+	}
+	pair, err := p.ns.Set(key, value, ver)
+	if err == nil && after != nil {
+		after()
+	}
+	return pair, err
 }
 
 func (p *partStore) Delete(key string, ver uint64) error {
@@ -165,6 +181,20 @@ func runCase(t *testing.T, c Case) (viols [][2]string, outcome string, polls int
 			n := n
 			id := uint64(n + 1)
 			ps := &partStore{mu: &mu, ns: &metastore.NodeStore{C: cl, Node: n}, cut: &cuts[n]}
+			// a lease write that succeeds while the committed record names ANOTHER node and has not
+			// expired puts two unexpired leases side by side (called under mu)
+			ps.beforeSet = func(key string) func() {
+				if key != leaseKey {
+					return nil
+				}
+				h, until, ok := truth()
+				now := time.Now()
+				return func() {
+					if ok && h != id && until.After(now) {
+						viols = append(viols, [2]string{"worker/lease-granted-before-the-previous-lease-expired", fmt.Sprintf("node %d's lease request succeeded at +%v; the committed lease record named node %d until +%v", id, now.Sub(epoch()), h, until.Sub(epoch()))})
+					}
+				}
+			}
 			eng := &storage.Engine{Manager: table.VerifNewManager(ps, id)}
 			rand.Seed(c.Seed + int64(n)*7919) // worker.Start sleeps rand.Intn(pollInterval) first
 			w := replication.VerifNewStartableWorker(eng, "t", ps, q, time.Second, time.Second)
@@ -260,6 +290,44 @@ func runCase(t *testing.T, c Case) (viols [][2]string, outcome string, polls int
 	return viols, outcome, polls, takeover
 }
 
+// runBoundary: node 1 takes a 4 s lease through the real Manager.LeaseTable, node 2 asks for the
+// table when the lease has `remaining` left (negative: that long after it ran out). The fake clock of
+// the bubble makes the instant exact. A grant with time remaining is two unexpired leases at once.
+func runBoundary(t *testing.T, c Case) (viols [][2]string, outcome string) {
+	synctest.Test(t, func(t *testing.T) {
+		var mu sync.Mutex
+		cl := metastore.NewCluster(2, false)
+		cuts := [2]bool{}
+		var ms []*table.Manager
+		for n := 0; n < 2; n++ {
+			ps := &partStore{mu: &mu, ns: &metastore.NodeStore{C: cl, Node: n}, cut: &cuts[n]}
+			ms = append(ms, table.VerifNewManager(ps, uint64(n+1)))
+		}
+		const lease = 4 * time.Second
+		if err := ms[0].LeaseTable("t", lease); err != nil {
+			viols = append(viols, [2]string{"boundary/first-lease-refused", err.Error()})
+			return
+		}
+		remaining := time.Duration(c.RemainingNs)
+		time.Sleep(lease - remaining)
+		err := ms[1].LeaseTable("t", lease)
+		outcome = fmt.Sprintf("remaining=%v granted=%v", remaining, err == nil)
+		if err == nil && remaining > 0 {
+			viols = append(viols, [2]string{"boundary/lease-granted-before-the-previous-lease-expired", fmt.Sprintf("node 2 was granted the table while node 1's lease had %v left", remaining)})
+		}
+		if err != nil && remaining <= -time.Hour {
+			viols = append(viols, [2]string{"boundary/lease-never-granted-after-expiry", fmt.Sprintf("node 2 refused %v after node 1's lease ran out: %v", -remaining, err)})
+		}
+		// the holder itself may always renew; afterwards the other node is refused again
+		if remaining > 0 && err != nil {
+			if err := ms[0].LeaseTable("t", lease); err != nil {
+				viols = append(viols, [2]string{"boundary/holder-cannot-renew", err.Error()})
+			}
+		}
+	})
+	return viols, outcome
+}
+
 var epochT time.Time
 
 // epoch is the bubble's start time (every bubble starts at the same fake instant).
@@ -279,7 +347,7 @@ func TestWorkerLeases(t *testing.T) {
 		maxStart, maxLen, maxAfter = 8, 20, 8
 		seeds = []int64{1, 2, 3, 4, 5, 6}
 	}
-	res := Result{Rule: fmt.Sprintf("worker part: two real replication workers (real worker.Start: lease, statistics and replication routines on their own tickers, lease interval 1s, lease 4s) over real Manager.LeaseTable/ReturnTable and real kv.LFSM replicas in synctest bubbles; one node is cut off from the metadata store (proposals time out, reads stale) for a window: EVERY (start 0..%d, length 0..%d, tail 0..%d) on a half-interval grid x either node x %d start-up phases; and the same grid (length 1..6) with the node's worker closed (which returns the lease) at the start of the window and a new worker started on the same engine at its end; after every half interval a worker whose lease flag is set (it polls the leader exactly then) must be named by the committed lease record, which must not have expired", maxStart, maxLen, maxAfter, len(seeds))}
+	res := Result{Rule: fmt.Sprintf("worker part: two real replication workers (real worker.Start: lease, statistics and replication routines on their own tickers, lease interval 1s, lease 4s) over real Manager.LeaseTable/ReturnTable and real kv.LFSM replicas in synctest bubbles; one node is cut off from the metadata store (proposals time out, reads stale) for a window: EVERY (start 0..%d, length 0..%d, tail 0..%d) on a half-interval grid x either node x %d start-up phases; and the same grid (length 1..6) with the node's worker closed (which returns the lease) at the start of the window and a new worker started on the same engine at its end; after every half interval a worker whose lease flag is set (it polls the leader exactly then) must be named by the committed lease record, which must not have expired, and no lease write may succeed while the committed record names another node and has not expired; expiry boundary: node 2 asks for a table that node 1 leased for 4s, at 18 exact instants from 2h after to 1ns before and 1ns..3.999s before the lease runs out (fake clock): granted only after it ran out", maxStart, maxLen, maxAfter, len(seeds))}
 	outcomes := map[string]bool{}
 	var cases []Case
 	for _, seed := range seeds {
@@ -299,6 +367,9 @@ func TestWorkerLeases(t *testing.T) {
 			}
 		}
 	}
+	for _, rem := range []time.Duration{-2 * time.Hour, -time.Minute, -2 * time.Second, -time.Second, -time.Millisecond, -1, 1, time.Microsecond, time.Millisecond, 10 * time.Millisecond, 100 * time.Millisecond, 500 * time.Millisecond, 999 * time.Millisecond, time.Second, 1001 * time.Millisecond, 2 * time.Second, 3 * time.Second, 3999 * time.Millisecond} {
+		cases = append(cases, Case{Kind: "lease-boundary", RemainingNs: int64(rem)})
+	}
 	if rp := os.Getenv("VERIF_C15W_REPLAY"); rp != "" {
 		var c Case
 		if err := json.Unmarshal([]byte(rp), &c); err != nil {
@@ -307,6 +378,16 @@ func TestWorkerLeases(t *testing.T) {
 		cases = []Case{c}
 	}
 	for _, c := range cases {
+		if c.Kind == "lease-boundary" {
+			vs, outcome := runBoundary(t, c)
+			res.Paths++
+			res.Boundary++
+			outcomes[outcome] = true
+			for _, v := range vs {
+				res.Violations = append(res.Violations, Violation{Sig: v[0], Detail: v[1] + " | " + c.String(), Case: c})
+			}
+			continue
+		}
 		vs, outcome, polls, takeover := runCase(t, c)
 		res.Paths++
 		res.Events += int64(c.Start + c.Len + c.After)
